@@ -35,7 +35,7 @@ The default of `max_steps` is emitted next to each scheduler method (`*_maxSteps
 import ast
 
 import extract_calendar as ec
-from extract_calendar import Miss, miss, is_none, strip_docstring, no_nested_scope
+from extract_calendar import sym_key, Miss, miss, is_none, strip_docstring, no_nested_scope
 
 LEDGER_CLASS = '_ResourceUsage'
 ROW_CLASS = 'ResourceUsageRow'
@@ -126,7 +126,8 @@ class STr(ec.Tr):
             if f == 'timedelta' and not n.args and len(n.keywords) == 1 and n.keywords[0].arg == 'hours':
                 return ['timedeltaHours', self.expr(n.keywords[0].value)]
             if f == 'min' and not n.keywords and len(n.args) == 2:
-                return ['min', self.expr(n.args[0]), self.expr(n.args[1])]
+                a0, a1 = sorted(n.args, key=sym_key)        # min(a, b) and min(b, a) are one term
+                return ['min', self.expr(a0), self.expr(a1)]
             if f == 'sum' and not n.keywords and len(n.args) == 2:
                 return ['sum', self.expr(n.args[0]), self.expr(n.args[1])]
             if f == ROW_CLASS and not n.keywords and len(n.args) == 4:
